@@ -18,6 +18,9 @@ rows of those files, decide:
            cache, several bindings on ONE loop rank (e.g. the coordinates and the payloads of a fiber, driven by
            the same trace): accesses of one stamp are served in the order of the listing; the simulator and the
            exhaustive optimum are evaluated on exactly that access sequence
+  lines    a line is a tuple (coordinate of every enclosing rank of the tensor, first position): part of the random
+           traces visit distinct lines whose numbers read the same when written one after the other ((1, 12) and
+           (11, 2)); every oracle keeps them apart as tuples
   filterTrace      = rows of the input whose point occurs (as a prefix) in the filter
   _combineTraces   = stable merge by iteration stamp (read first on ties)
   directory listing before/after every model call (temporary files removed), also when the trace dictionary
@@ -45,7 +48,11 @@ SPEC = {
              "over 2 lines x every split into eviction windows under the buffet (evict-on root and outer rank); "
              "(ii) random single-binding traces over 1-3 loop ranks (read-only, "
              "write-only, read+write, staging writes, line sizes of 1/2/4 elements and padded lines, coord / "
-             "payload / elem bindings, tensors spanning any subset of the loop ranks, renamed loop ranks), each "
+             "payload / elem bindings, tensors spanning any subset of the loop ranks, renamed loop ranks; in 25% of the "
+             "cases over 2-3 loop ranks the tensor has 1-2 enclosing ranks and most accesses go to 2-4 lines that are "
+             "distinct as tuples (enclosing coordinates, first position of the line) but whose decimal digits written "
+             "one after the other coincide, e.g. (1, 12) / (11, 2) or (1, 11, 20) / (11, 1, 20) / (1, 1, 120), re-used "
+             "across eviction windows; likewise 20% of the bindings of (iii) that sit below the outermost loop rank), each "
              "run under the buffet for every legal evict-on and under the cache for capacities 0..unbounded, plus "
              "a re-run with positions moved inside their lines; (iii) random multi-binding runs (2-3 bindings, "
              "1-2 tensors, bindings on the same or on different loop ranks, one element width for all bindings or "
@@ -92,7 +99,9 @@ SPEC = {
                              "kernel_whole_dictionary_runs": 150,
                              "write_entry_first_calls": 8000, "dictionary_order_pairs": 1500,
                              "shared_trace_cases": 250, "same_rank_fnu_checked": 1500,
-                             "same_rank_optimum_checked": 250},
+                             "same_rank_optimum_checked": 250,
+                             "cases_with_reused_lines_alike_as_text": 120,
+                             "calls_on_reused_lines_alike_as_text": 2000},
                    "thorough": {"evaluations": 100000, "oracle_evals": 4000000, "model_calls": 400000,
                                 "fnu_checked": 200000, "optimum_checked": 50000, "kernel_cases": 2000,
                                 "filter_calls": 8000, "combine_calls": 4000, "relisted_runs": 10000,
@@ -104,12 +113,18 @@ SPEC = {
                                 "kernel_whole_dictionary_runs": 1500,
                                 "write_entry_first_calls": 60000, "dictionary_order_pairs": 10000,
                                 "shared_trace_cases": 2500, "same_rank_fnu_checked": 15000,
-                                "same_rank_optimum_checked": 2000}},
+                                "same_rank_optimum_checked": 2000,
+                                "cases_with_reused_lines_alike_as_text": 1500,
+                                "calls_on_reused_lines_alike_as_text": 25000}},
     "assumptions": [
         "well-formed trace file = header + rows whose iteration stamps strictly increase inside the file; a read "
         "row and a write row (different files) may share a stamp, the read is first",
         "coordinates in a row are a function of the stamp prefix (same iteration -> same coordinate)",
         "evict-on is root or a loop rank strictly outside the bound rank (the quantifier of the statement)",
+        "a line of a bound rank is identified by the coordinates of the tensor's enclosing ranks (in loop order) "
+        "together with position // elements-per-line: a tuple of numbers.  Two lines are the same line only when "
+        "these tuples are equal; how the numbers look in the text of a trace file (number of digits, digits of "
+        "neighbouring columns) is not an input of the statement",
         "cache: equality with the furthest-next-use simulator is demanded when next-use times are unambiguous: "
         "no two different lines of ONE binding share a stamp in its merged read/write trace, the write-traced "
         "bindings of a run agree on the extent of the rank, and no access addresses the staging area (the statement "
@@ -290,16 +305,50 @@ def _gen_stamps(rng, n, count, p_inner):
     return out
 
 
-def _gen_binding_rows(rng, n, count, epl, nlines, shape, mode, ncoord, diff_rw=False, staging=0.0):
-    """mode: r / w / rw.  Returns (reads|None, writes|None)."""
+def _lines_alike_as_text(rng, nparts, epl):
+    """A line is a TUPLE (coordinate of every enclosing rank of the tensor ..., first position of the line); the
+    models read those numbers from text.  -> 2-4 distinct tuples of `nparts` numbers whose decimal digits, written
+    one after the other, give the same string (e.g. (1, 12) / (11, 2); (1, 11, 20) / (11, 1, 20) / (1, 1, 120)),
+    the last number of each being a line start; None when the draw found none."""
+    for _ in range(60):
+        ln = nparts + rng.randint(1, 3)
+        s = rng.choice("123") + "".join(rng.choice("0011122458") for _ in range(ln - 1))
+        found = []
+        for cuts in itertools.combinations(range(1, ln), nparts - 1):
+            parts = [s[a:b] for a, b in zip((0,) + cuts, cuts + (ln,))]
+            if any(len(p) > 1 and p[0] == "0" for p in parts):
+                continue
+            vals = tuple(int(p) for p in parts)
+            if vals[-1] % epl == 0:
+                found.append(vals)
+        if len(found) >= 2:
+            rng.shuffle(found)
+            return found[:rng.randint(2, 4)]
+    return None
+
+
+def _gen_binding_rows(rng, n, count, epl, nlines, shape, mode, ncoord, diff_rw=False, staging=0.0, alike=None):
+    """mode: r / w / rw.  Returns (reads|None, writes|None).
+    alike = {"levels": loop levels that are ranks of the tensor, "lines": tuples from _lines_alike_as_text}: the
+    coordinates of those levels and the positions are drawn so that most accesses go to those lines."""
     stamps = _gen_stamps(rng, n, count, rng.choice([0.5, 0.75, 0.9]))
     cmap = {}
     reads, writes = [], []
     alphabet = rng.sample(POOL, ncoord) if rng.random() < 0.5 else list(range(ncoord))
     lo = max(0, shape - epl * nlines)
+    per_level, starts = {}, []
+    if alike:
+        for idx, lvl in enumerate(alike["levels"]):
+            per_level[lvl] = sorted({t[idx] for t in alike["lines"]})
+        starts = sorted({t[-1] for t in alike["lines"]})
     for st in stamps:
-        coords = [cmap.setdefault((lvl, st[:lvl + 1]), rng.choice(alphabet)) for lvl in range(n - 1)]
+        coords = [cmap.setdefault((lvl, st[:lvl + 1]), rng.choice(per_level.get(lvl, alphabet))) for lvl in range(n - 1)]
         pos = rng.randrange(lo, max(lo + 1, shape))
+        if alike:
+            fiber = tuple(coords[lvl] for lvl in alike["levels"])
+            here = [t[-1] for t in alike["lines"] if t[:-1] == fiber]
+            start = rng.choice(here) if here and rng.random() < 0.85 else rng.choice(starts)
+            pos = min(start + rng.randrange(epl), shape - 1)
         if mode == "r":
             kind = "r"
         elif mode == "w":
@@ -372,7 +421,6 @@ def _rand_single(rng):
     n = rng.randint(1, 3)
     order = RANKS[:n] if rng.random() < 0.7 else rng.sample(["I", "J", "K", "M", "N", "P", "Q"], n)
     upper = [r for r in order[:-1] if rng.random() < 0.6]
-    tranks = upper + [order[-1]]
     bits = rng.choice([8, 16, 32, 64])
     epl, line_sz = _pick_line(rng, bits)
     nlines = rng.randint(1, 5)
@@ -380,9 +428,21 @@ def _rand_single(rng):
     shape = rng.choice([0, 0, 0, 8, 96, 999]) + epl * nlines + rng.choice([0, 0, 1]) * rng.randrange(epl)
     count = rng.choice([rng.randint(0, 12), rng.randint(5, 40), rng.randint(20, 120)])
     flavour = rng.choice(["exact", "exact", "exact", "staging", "shift"]) if mode != "r" else "exact"
+    alike = None
+    if n >= 2 and rng.random() < 0.25:
+        # a tensor with enclosing ranks whose lines (tuples) are distinct but read alike when written as text
+        up2 = upper or [rng.choice(order[:-1])]
+        lines = _lines_alike_as_text(rng, len(up2) + 1, epl)
+        if lines:
+            upper, flavour = up2, "exact"
+            alike = {"levels": [order.index(r) for r in upper], "lines": lines}
+            shape = max(t[-1] for t in lines) + epl + rng.choice([0, 0, 8])
+            count = rng.choice([rng.randint(4, 12), rng.randint(8, 40), rng.randint(20, 80)])
+    tranks = upper + [order[-1]]
     reads, writes = _gen_binding_rows(rng, n, count, epl, nlines, shape, mode, rng.randint(1, 3),
                                       diff_rw=(flavour == "shift"),
-                                      staging=(rng.choice([0.15, 0.4]) if flavour in ("staging", "shift") else 0.0))
+                                      staging=(rng.choice([0.15, 0.4]) if flavour in ("staging", "shift") else 0.0),
+                                      alike=alike)
     rename = None
     tshape = [rng.randint(2, 9) for _ in upper] + [shape]
     if rng.random() < 0.12:
@@ -416,6 +476,7 @@ def _rand_multi(rng):
     tensors, bindings, used = {}, [], set()
     names = ["A", "B"] if rng.random() < 0.6 else ["A"]
     distinct_ranks = rng.random() < 0.6
+    need_upper = set()
     positions = list(range(n))
     rng.shuffle(positions)
     for b in range(nb):
@@ -439,15 +500,25 @@ def _rand_multi(rng):
             nlines = rng.randint(1, 4)
             mode = rng.choice(["r", "r", "rw", "w"])
             shape = rng.choice([0, 0, 8, 96]) + epl * nlines
+            alike = None
+            if j >= 1 and rng.random() < 0.2:
+                # lines that are distinct tuples but read alike as text (the tensor then has these enclosing ranks)
+                levels = sorted(rng.sample(range(j), rng.randint(1, j)))
+                lines = _lines_alike_as_text(rng, len(levels) + 1, epl)
+                if lines:
+                    alike = {"levels": levels, "lines": lines}
+                    need_upper |= {(t, order[lvl]) for lvl in levels}
+                    shape = max(x[-1] for x in lines) + epl
             reads, writes = _gen_binding_rows(rng, j + 1, rng.randint(1, 30), epl, nlines, shape, mode, rng.randint(1, 3),
-                                              staging=rng.choice([0, 0.3]) if mode != "r" else 0.0)
+                                              staging=(rng.choice([0, 0.3]) if mode != "r" and not alike else 0.0),
+                                              alike=alike)
         bindings.append({"tensor": t, "rank": order[j], "type": ty, "bits": bits, "n": j + 1,
                          "reads": reads, "writes": writes, "_shape": shape})
     for t in names:
         mine = [b for b in bindings if b["tensor"] == t]
         if not mine:
             continue
-        need = {b["rank"] for b in mine}
+        need = {b["rank"] for b in mine} | {r for (tt, r) in need_upper if tt == t}
         tr = [r for r in order if r in need or rng.random() < 0.5]
         tensors[t] = {"ranks": tr, "shape": [max([b["_shape"] for b in mine if b["rank"] == r] or [rng.randint(2, 9)])
                                               for r in tr]}
@@ -967,6 +1038,24 @@ def _run_model_case(case, mon, tmp, files=None, tagx=""):
     if shared:
         mon.count("shared_trace_cases")
     rw_bound = any(b["reads"] is not None and b["writes"] is not None for b in case["bindings"])
+    # distinct lines (tuples: enclosing coordinates + first position) of one binding whose numbers, written down one
+    # after the other, read the same; `alike_reused` = such a line is touched more than once
+    alike_as_text = alike_reused = False
+    for f in facts:
+        by_text, touched = {}, {}
+        for a in f["acc"]:
+            touched[a[2]] = touched.get(a[2], 0) + 1
+        for upper, lno in touched:
+            by_text.setdefault("".join(str(c) for c in upper) + str(lno * f["epl"]), []).append((upper, lno))
+        for group in by_text.values():
+            if len(group) > 1:
+                alike_as_text = True
+                alike_reused = alike_reused or any(touched[g] > 1 for g in group)
+    if alike_as_text:
+        mon.count("cases_with_lines_alike_as_text")
+    if alike_reused:
+        mon.count("cases_with_reused_lines_alike_as_text")
+    calls_before = mon.counters["model_calls"]
 
     def loop_ranks():
         return dict(case["rename"]) if case.get("rename") else None
@@ -1226,6 +1315,8 @@ def _run_model_case(case, mon, tmp, files=None, tagx=""):
         finally:
             shutil.rmtree(sub, ignore_errors=True)
 
+    if alike_reused:
+        mon.count("calls_on_reused_lines_alike_as_text", mon.counters["model_calls"] - calls_before)
     if reuse:
         mon.nontrivial()
     mon.state(("model", [list(map(str, r)) for r in results][:12]))
